@@ -25,6 +25,7 @@ import (
 type Case struct {
 	Sim       sim.Case `json:"sim"`
 	MinValue  uint64   `json:"min_value"`
+	Wide      bool     `json:"wide,omitempty"` // holds a transaction with more than 65536 outputs
 	UseMapCnt uint32   `json:"use_map_cnt"`
 	StartOn   bool     `json:"start_on"`
 }
@@ -229,6 +230,8 @@ func genCase(t *rapid.T, p sim.Profile) Case {
 			for k := range c.Sim.Ops[i].Txs[j].Outs {
 				o := &c.Sim.Ops[i].Txs[j].Outs[k]
 				o.N = o.N % 3
+				// now and then an output of value 0 (indexed when the minimum value is 0)
+				o.Zero = rapid.IntRange(0, 9).Draw(t, "zero") == 0
 			}
 		}
 	}
@@ -241,6 +244,21 @@ func genCase(t *rapid.T, p sim.Profile) Case {
 		ops = append(ops, op)
 	}
 	c.Sim.Ops = ops
+	// one history in thirty holds a transaction whose real outputs sit behind 65534..65540 empty ones: output
+	// indexes that need more than 16 bits (such a history is kept short - every model state holds those outputs)
+	if rapid.IntRange(0, 29).Draw(t, "wide") == 0 {
+		for i := range c.Sim.Ops {
+			if op := &c.Sim.Ops[i]; op.Kind == "block" && op.Viol == "" && !op.Hold && len(op.Txs) > 0 {
+				op.Txs[0].Pad = rapid.SampledFrom([]int{65534, 65535, 65536, 65540}).Draw(t, "pad")
+				op.Parent = -1
+				if len(c.Sim.Ops) > i+9 {
+					c.Sim.Ops = c.Sim.Ops[:i+9]
+				}
+				c.Wide = true
+				break
+			}
+		}
+	}
 	c.MinValue = rapid.SampledFrom([]uint64{0, 1, 1000, 100000, 50000000, 2500000000}).Draw(t, "minvalue")
 	c.UseMapCnt = uint32(rapid.SampledFrom([]int{2, 3, 3, 5, 200}).Draw(t, "usemapcnt"))
 	c.StartOn = rapid.IntRange(0, 3).Draw(t, "starton") != 0
@@ -265,6 +283,12 @@ func TestBalances(t *testing.T) {
 		}
 		if st.reorgs > 0 {
 			r.Class("reorg")
+		}
+		if c.Wide {
+			r.Class("transaction_with_more_than_65536_outputs")
+		}
+		if c.MinValue == 0 {
+			r.Class("minimum_value_0")
 		}
 		if st.emptiedAndRepaid > 0 {
 			r.Class("address_emptied_then_paid_again")
